@@ -1,10 +1,10 @@
 package main
 
 import (
-	"os"
 	"fmt"
 	"go/token"
 	"go/types"
+	"os"
 
 	"golang.org/x/tools/go/ssa"
 )
@@ -48,6 +48,34 @@ func runC10(c *Ctx) {
 // producer (a helper's return paths), name: for reports.
 func (c *Ctx) decodedSliceOrigin(fn *ssa.Function, slice ssa.Value, at ssa.Instruction, dec map[*ssa.Alloc]ssa.CallInstruction) (name string, baseMin int64, ok bool) {
 	switch x := slice.(type) {
+	case *ssa.Slice:
+		// s[lo:] / s[lo:hi] of a decoded slice is as peer-sized as s; what is known about len(s) where the
+		// slice expression stands, minus lo, is known about the result (nothing when hi is given)
+		if _, isSl := x.X.Type().Underlying().(*types.Slice); !isSl {
+			return "", 0, false
+		}
+		name, base, ok := c.decodedSliceOrigin(fn, x.X, x, dec)
+		if !ok {
+			return "", 0, false
+		}
+		lo := int64(0)
+		if x.Low != nil {
+			k, isK := constInt(x.Low)
+			if !isK || k < 0 {
+				return name + "[lo:]", 0, true
+			}
+			lo = k
+		}
+		if x.High != nil {
+			return name + "[:hi]", 0, true
+		}
+		if m, _ := lenFactsBound(cmpFactsAt(x.Block()), x.X); m > base {
+			base = m
+		}
+		if base -= lo; base < 0 {
+			base = 0
+		}
+		return name + "[" + itoa(lo) + ":]", base, true
 	case *ssa.UnOp:
 		if x.Op != token.MUL {
 			return "", 0, false
@@ -104,6 +132,25 @@ func (c *Ctx) decodedSliceOrigin(fn *ssa.Function, slice ssa.Value, at ssa.Instr
 						}
 						return
 					}
+				}
+			}
+			if sl, isSl := rv.(*ssa.Slice); isSl {
+				// the tail of a decoded slice: whatever the helper established about the whole, minus the offset
+				if _, m, isT := c.decodedSliceOrigin(g, sl, rt, gdec); isT {
+					tainted = true
+					if ld, isLd := sl.X.(*ssa.UnOp); isLd && sl.High == nil {
+						lo := int64(0)
+						if sl.Low != nil {
+							lo, _ = constInt(sl.Low)
+						}
+						if mm, _ := lenFactsBoundIn(cmpFactsAt(rt.Block()), ld, call); mm-lo > m {
+							m = mm - lo
+						}
+					}
+					if m < min {
+						min = m
+					}
+					return
 				}
 			}
 			min = 0
